@@ -232,3 +232,21 @@ PROPS["C01"] = {
             "nested Signature inside signed content, re-encryption of the evil or the original assertion to the SP, Conditions dropped, evil assertion signed by the attacker); every single operation on all six valid bases, "
             "(thorough: every ordered pair); the real ParseXMLResponse decides the bytes, the model decides the dumped tree + ledger + views",
 }
+
+# ---- per-property notes on the depth actually reached (shown in MANIFEST.json) ----
+BASE_NOTE = ("Trusted: Lean kernel (axioms propext, Classical.choice, Quot.sound only), the theorem statements as a reading of the property, "
+             "the correspondence harness and fact extractor; modelled-not-verified parts are listed in DESIGN.md §7.6/§7.7 and in the evidence's trusted_base. ")
+NOTES = {
+    "C01": "Depth: tree level. Struct views (encoding/xml), ds:Signature views and decryption are inputs computed by the real code; that identity is a function of the canonical form is tested, not proved; "
+           "only exclusive c14n + enveloped transform; artifact envelope at struct level only.",
+    "C07": "Partial for XML attribute positions: attribute values round-trip for every string without a carriage return (theorem C07_attr_roundtrip_partial, counterexample theorem, known finding c07-cr-in-xml-attribute); "
+           "character data (NameID, attribute values) is proved for every XML character.",
+    "C09": "Partial: totality of the library's own logic after parsing, and the inflate bound, are proved; termination/allocation of third-party parsers on arbitrary bytes is only sampled.",
+    "C10": "Partial: C10_all_offered is proved for every offered combination except AES-GCM encryption (known findings gcm-encrypt-*; counterexample theorem).",
+    "C15": "Partial: theorems cover Duration (every int64). RelaxedTime and the metadata fixpoint are exercised by C02/C07 generators but have no theorem.",
+    "C19": "'Exactly one HTTP reply' is by construction in the model and measured on the real server.",
+    "C20": "Race- and deadlock-freedom are proved for any number of threads running the lock programs regenerated from the source; the Go memory model and scheduler are not modelled (sampled under -race).",
+}
+for _p, _c in PROPS.items():
+    _c.setdefault("level_note", BASE_NOTE + NOTES.get(_p, ""))
+    _c.setdefault("design_ref", "DESIGN.md §2 " + _p + " (plan) and §7.2/§7.6 (as built)")
